@@ -325,28 +325,55 @@ Proof.
   rewrite andb_false_r. reflexivity.
 Qed.
 
+(* line comments *)
+Lemma cstart_wr : forall c t, cstart (wr c) t = cstart c t.
+Proof. intros c t. unfold cstart. rewrite cp_wr. reflexivity. Qed.
+Lemma cstart_next : forall c t' t, next_is 45 t' = next_is 45 t -> cstart c t' = cstart c t.
+Proof. intros c t' t H. unfold cstart. rewrite H. reflexivity. Qed.
+Lemma cstart_ne : forall c t, (cp c =? 45) = false -> cstart c t = false.
+Proof. intros c t H. unfold cstart. rewrite H. reflexivity. Qed.
+Lemma cstart_quote : forall c t, is_quote c = true -> cstart c t = false.
+Proof.
+  intros c t H. apply cstart_ne. unfold is_quote in H. apply orb_prop in H. destruct H as [H|H]; apply N.eqb_eq in H; rewrite H; reflexivity.
+Qed.
+Lemma cstart_sp : forall c t, is_sp c = true -> cstart c t = false.
+Proof. intros c t H. apply cstart_ne. unfold is_sp in H. apply N.eqb_eq in H. rewrite H. reflexivity. Qed.
+Lemma cstart_blank : forall c t, is_blank c = true -> cstart c t = false.
+Proof.
+  intros c t H. apply cstart_ne. unfold is_blank, is_sp, is_tab in H. apply orb_prop in H. destruct H as [H|H]; apply N.eqb_eq in H; rewrite H; reflexivity.
+Qed.
+Lemma next_is_scan10 : forall n t q, next_is n (l010_scan q false t) = next_is n t.
+Proof.
+  intros n [|c t] q; [reflexivity|]. cbn [l010_scan]. destruct q as [k|]; [cbn [next_is]; rewrite cp_wr; reflexivity|].
+  destruct (cstart c t); [reflexivity|]. destruct (is_quote c); [cbn [next_is]; rewrite cp_wr; reflexivity|].
+  destruct (is_sp c); cbn [app next_is]; rewrite cp_wr; reflexivity.
+Qed.
+
 Lemma l010_scan_idem : forall l q ps, l010_scan q ps (l010_scan q ps l) = l010_scan q ps l.
 Proof.
   induction l as [|c t IH]; intros q ps; [reflexivity|].
   cbn [l010_scan]. destruct q as [k|].
   - cbn [l010_scan]. rewrite wr_wr, cp_wr. rewrite IH. reflexivity.
-  - destruct (is_quote c) eqn:Eq.
-    + cbn [l010_scan]. rewrite is_quote_wr, Eq, wr_wr, cp_wr, IH. reflexivity.
+  - destruct (cstart c t) eqn:Ec; [cbn [l010_scan]; rewrite Ec; reflexivity|].
+    destruct (is_quote c) eqn:Eq.
+    + cbn [l010_scan]. rewrite cstart_wr. rewrite (cstart_quote c _ Eq). rewrite is_quote_wr, Eq, wr_wr, cp_wr, IH. reflexivity.
     + destruct (is_sp c) eqn:Es.
       * destruct ps; cbn [app].
         -- apply IH.
-        -- cbn [l010_scan]. rewrite is_quote_wr, Eq, is_sp_wr, Es, wr_wr. cbn [app]. rewrite IH. reflexivity.
-      * cbn [l010_scan]. rewrite is_quote_wr, Eq, is_sp_wr, Es, wr_wr, IH. reflexivity.
+        -- cbn [l010_scan]. rewrite cstart_wr. rewrite (cstart_sp c _ Es). rewrite is_quote_wr, Eq, is_sp_wr, Es, wr_wr. cbn [app]. rewrite IH. reflexivity.
+      * cbn [l010_scan]. rewrite cstart_wr. rewrite (cstart_next c _ t (next_is_scan10 45 t None)). rewrite Ec.
+        rewrite is_quote_wr, Eq, is_sp_wr, Es, wr_wr, IH. reflexivity.
 Qed.
 
-Lemma l010_scan_in : forall l q ps x, In x (l010_scan q ps l) -> exists c, In c l /\ x = wr c.
+Lemma l010_scan_in : forall l q ps x, In x (l010_scan q ps l) -> exists c, In c l /\ (x = wr c \/ x = c).
 Proof.
   induction l as [|c t IH]; intros q ps x H; [destruct H|].
   cbn [l010_scan] in H.
-  assert (G : forall q' ps', In x (wr c :: l010_scan q' ps' t) -> exists d, In d (c :: t) /\ x = wr d).
-  { intros q' ps' [Hx|Hx]; [exists c; split; [left; reflexivity|symmetry; exact Hx]|].
+  assert (G : forall q' ps', In x (wr c :: l010_scan q' ps' t) -> exists d, In d (c :: t) /\ (x = wr d \/ x = d)).
+  { intros q' ps' [Hx|Hx]; [exists c; split; [left; reflexivity|left; symmetry; exact Hx]|].
     destruct (IH _ _ _ Hx) as (d & Hd & E). exists d. split; [right; exact Hd|exact E]. }
   destruct q as [k|]; [eapply G; exact H|].
+  destruct (cstart c t); [exists x; split; [exact H|right; reflexivity]|].
   destruct (is_quote c); [eapply G; exact H|].
   destruct (is_sp c).
   - destruct ps; cbn [app] in H.
@@ -357,16 +384,19 @@ Qed.
 
 Lemma l010_scan_blank : forall l q ps, forallb is_blank l = true -> forallb is_blank (l010_scan q ps l) = true.
 Proof.
-  intros l q ps H. apply forallb_forall. intros x Hx. apply l010_scan_in in Hx. destruct Hx as (c & Hc & E). subst.
-  rewrite is_blank_wr. rewrite forallb_forall in H. apply H. exact Hc.
+  intros l q ps H. apply forallb_forall. intros x Hx. apply l010_scan_in in Hx. destruct Hx as (c & Hc & [E|E]); subst.
+  - rewrite is_blank_wr. rewrite forallb_forall in H. apply H. exact Hc.
+  - rewrite forallb_forall in H. apply H. exact Hc.
 Qed.
 
 (* the scan of a line that starts with a non-blank character starts with that character *)
 Lemma l010_scan_head : forall c t, is_blank c = false ->
-  exists r, l010_scan None false (c :: t) = wr c :: r.
+  exists c' r, l010_scan None false (c :: t) = c' :: r /\ is_blank c' = false.
 Proof.
-  intros c t H. cbn [l010_scan]. destruct (is_quote c); [eexists; reflexivity|].
-  unfold is_blank in H. apply orb_false_elim in H. destruct H as [H _]. rewrite H. eexists; reflexivity.
+  intros c t H. cbn [l010_scan]. destruct (cstart c t); [exists c, t; split; [reflexivity|exact H]|].
+  assert (Hw : is_blank (wr c) = false) by (rewrite is_blank_wr; exact H).
+  destruct (is_quote c); [eexists _, _; split; [reflexivity|exact Hw]|].
+  unfold is_blank in H. apply orb_false_elim in H. destruct H as [H _]. rewrite H. eexists _, _; split; [reflexivity|exact Hw].
 Qed.
 
 Lemma l010_line_idem : forall l, l010_fix_line (l010_fix_line l) = l010_fix_line l.
@@ -379,11 +409,11 @@ Proof.
   - apply trim_l_nil_iff in E. pose proof (l010_scan_blank l None false E) as Hb.
     rewrite E0. unfold l010_fix_line. apply trim_l_nil_iff in Hb. rewrite Hb. apply l010_scan_idem.
   - pose proof (trim_l_head _ _ _ _ E) as Hc.
-    destruct (l010_scan_head c r Hc) as (s & Hs).
+    destruct (l010_scan_head c r Hc) as (c' & s & Hs & Hc').
     pose proof (take_l_all is_blank l) as Hlead.
     rewrite E0. unfold l010_fix_line. rewrite Hs.
-    rewrite trim_l_app_all by exact Hlead. rewrite trim_l_stop by (rewrite is_blank_wr; exact Hc).
-    rewrite take_l_app_all by exact Hlead. rewrite take_l_stop by (rewrite is_blank_wr; exact Hc).
+    rewrite trim_l_app_all by exact Hlead. rewrite trim_l_stop by exact Hc'.
+    rewrite take_l_app_all by exact Hlead. rewrite take_l_stop by exact Hc'.
     rewrite app_nil_r. rewrite <- Hs. rewrite l010_scan_idem. reflexivity.
 Qed.
 
@@ -391,7 +421,7 @@ Lemma l010_line_keeps : forall l, no_nl l -> no_nl (l010_fix_line l).
 Proof.
   intros l H x Hx. unfold l010_fix_line in Hx.
   assert (G : forall m, (forall y, In y m -> In y l) -> In x (l010_scan None false m) -> is_nl x = false).
-  { intros m Hm Hin. apply l010_scan_in in Hin. destruct Hin as (c & Hc & E). subst. apply is_nl_wr. apply H. apply Hm. exact Hc. }
+  { intros m Hm Hin. apply l010_scan_in in Hin. destruct Hin as (c & Hc & [E|E]); subst; [apply is_nl_wr|]; apply H; apply Hm; exact Hc. }
   destruct (trim_l is_blank l) as [|c r] eqn:E.
   - eapply G; [|exact Hx]. auto.
   - apply in_app_or in Hx. destruct Hx as [Hx|Hx].
@@ -804,6 +834,9 @@ Section L007.
   Hypothesis up_letter : forall x u, upper_ascii x = Some u -> is_letter u = true.
   Hypothesis up_noquote : forall x u, upper_ascii x = Some u -> u <> 39 /\ u <> 34 /\ u <> 10.
   Hypothesis up_idem : forall x u, upper_ascii x = Some u -> upper_ascii u = Some u.
+  (* the minus sign is neither a letter nor a digit (a comment start never lies inside a word) *)
+  Hypothesis nl45 : is_letter 45 = false.
+  Hypothesis nd45 : is_digit 45 = false.
 
   Notation word_start := (word_start is_letter).
   Notation word_char := (word_char is_letter is_digit).
@@ -815,6 +848,17 @@ Section L007.
 
   Definition wc (c : ch) : bool := negb (is_quote c) && word_char c.
 
+  Lemma ws_not45 : forall c t, word_start c = true -> cstart c t = false.
+  Proof.
+    intros c t H. apply cstart_ne. destruct (cp c =? 45) eqn:E; [|reflexivity]. apply N.eqb_eq in E.
+    unfold Lint.word_start in H. rewrite E in H. rewrite nl45 in H. discriminate.
+  Qed.
+  Lemma wch_not45 : forall c t, word_char c = true -> cstart c t = false.
+  Proof.
+    intros c t H. apply cstart_ne. destruct (cp c =? 45) eqn:E; [|reflexivity]. apply N.eqb_eq in E.
+    unfold Lint.word_char, Lint.word_start in H. rewrite E in H. rewrite nl45, nd45 in H. discriminate.
+  Qed.
+
   Lemma word_start_wr : forall c, word_start (wr c) = word_start c.
   Proof. intro c. unfold Lint.word_start. rewrite cp_wr. reflexivity. Qed.
   Lemma word_char_wr : forall c, word_char (wr c) = word_char c.
@@ -824,10 +868,12 @@ Section L007.
 
   Lemma sN_nil : sN [] = []. Proof. reflexivity. Qed.
   Lemma sQ_nil : forall k, sQ k [] = []. Proof. reflexivity. Qed.
-  Lemma sN_quote : forall c t, is_quote c = true -> sN (c :: t) = wr c :: sQ (cp c) t.
+  Lemma sN_comment : forall c t, cstart c t = true -> sN (c :: t) = c :: t.
   Proof. intros c t H. cbn [l007_scan]. rewrite H. reflexivity. Qed.
-  Lemma sN_other : forall c t, is_quote c = false -> word_start c = false -> sN (c :: t) = wr c :: sN t.
-  Proof. intros c t H1 H2. cbn [l007_scan]. rewrite H1, H2. reflexivity. Qed.
+  Lemma sN_quote : forall c t, is_quote c = true -> sN (c :: t) = wr c :: sQ (cp c) t.
+  Proof. intros c t H. cbn [l007_scan]. rewrite (cstart_quote c t H). rewrite H. reflexivity. Qed.
+  Lemma sN_other : forall c t, cstart c t = false -> is_quote c = false -> word_start c = false -> sN (c :: t) = wr c :: sN t.
+  Proof. intros c t H0 H1 H2. cbn [l007_scan]. rewrite H0, H1, H2. reflexivity. Qed.
   Lemma sQ_cons : forall k c t, sQ k (c :: t) = wr c :: (if cp c =? k then sN t else sQ k t).
   Proof. intros k c t. cbn [l007_scan]. destruct (cp c =? k); reflexivity. Qed.
 
@@ -836,7 +882,7 @@ Section L007.
     induction t as [|c t IH]; intro w; [reflexivity|].
     cbn [take_l trim_l]. destruct (wc c) eqn:E; [|reflexivity].
     unfold wc in E. apply andb_prop in E. destruct E as [E1 E2]. apply negb_true_iff in E1.
-    cbn [l007_scan]. rewrite E1.
+    cbn [l007_scan]. rewrite (wch_not45 c t E2). rewrite E1.
     assert (C : word_start c || true && is_digit (cp c) = true) by exact E2. rewrite C.
     rewrite IH. cbn [map rev]. rewrite <- app_assoc. reflexivity.
   Qed.
@@ -847,7 +893,7 @@ Section L007.
   Proof.
     intros w r [H|(d & r' & H & Hd)]; subst.
     - cbn [l007_scan]. rewrite app_nil_r. reflexivity.
-    - cbn [l007_scan]. destruct (is_quote d) eqn:Eq; [reflexivity|].
+    - cbn [l007_scan]. destruct (cstart d r'); [reflexivity|]. destruct (is_quote d) eqn:Eq; [reflexivity|].
       unfold wc in Hd. rewrite Eq in Hd. cbn [negb andb] in Hd.
       unfold Lint.word_char in Hd. apply orb_false_elim in Hd. destruct Hd as [H1 H2].
       rewrite H1, H2. cbn [orb andb]. reflexivity.
@@ -862,7 +908,7 @@ Section L007.
   Lemma sN_word : forall c t, is_quote c = false -> word_start c = true ->
     sN (c :: t) = conv_word (map wr (c :: take_l wc t)) ++ sN (trim_l wc t).
   Proof.
-    intros c t H1 H2. cbn [l007_scan]. rewrite H1, H2. cbn [orb].
+    intros c t H1 H2. cbn [l007_scan]. rewrite (ws_not45 c t H2). rewrite H1, H2. cbn [orb].
     rewrite absorb. rewrite boundary by apply trim_l_stops.
     rewrite rev_app_distr. rewrite rev_involutive. reflexivity.
   Qed.
@@ -973,11 +1019,26 @@ Section L007.
   Lemma sN_stops : forall r, stops r -> stops (sN r).
   Proof.
     intros r [H|(d & r' & H & Hd)]; subst; [left; reflexivity|right].
+    destruct (cstart d r') eqn:Ec; [rewrite sN_comment by exact Ec; eexists _, _; split; [reflexivity|exact Hd]|].
     destruct (is_quote d) eqn:Eq.
     - rewrite sN_quote by exact Eq. eexists _, _. split; [reflexivity|]. rewrite wc_wr. exact Hd.
     - assert (Hs : word_start d = false).
       { unfold wc in Hd. rewrite Eq in Hd. cbn in Hd. unfold Lint.word_char in Hd. apply orb_false_elim in Hd. tauto. }
       rewrite sN_other by assumption. eexists _, _. split; [reflexivity|]. rewrite wc_wr. exact Hd.
+  Qed.
+
+  (* the first character of the rewritten line is a minus sign exactly when the first character of the line is *)
+  Lemma next_is_sN : forall t, next_is 45 (sN t) = next_is 45 t.
+  Proof.
+    intros [|d t]; [reflexivity|]. destruct (cstart d t) eqn:Ec; [rewrite sN_comment by exact Ec; reflexivity|].
+    destruct (is_quote d) eqn:Eq; [rewrite sN_quote by exact Eq; cbn [next_is]; rewrite cp_wr; reflexivity|].
+    destruct (word_start d) eqn:Ew; [|rewrite sN_other by assumption; cbn [next_is]; rewrite cp_wr; reflexivity].
+    rewrite sN_word by assumption.
+    destruct (conv_shape d (take_l wc t) Eq Ew (take_l_all wc t)) as (c' & v' & Ec' & _ & W' & _). rewrite Ec'.
+    cbn [app next_is].
+    assert (A : (cp c' =? 45) = false) by (pose proof (ws_not45 c' [c'] W') as Z; unfold cstart in Z; cbn [next_is] in Z; destruct (cp c' =? 45); [cbn in Z; discriminate|reflexivity]).
+    assert (B : (cp d =? 45) = false) by (pose proof (ws_not45 d [d] Ew) as Z; unfold cstart in Z; cbn [next_is] in Z; destruct (cp d =? 45); [cbn in Z; discriminate|reflexivity]).
+    rewrite A, B. reflexivity.
   Qed.
 
   Lemma l007_scan_idem_n : forall n l, (length l <= n)%nat ->
@@ -987,7 +1048,8 @@ Section L007.
     - destruct l; [split; reflexivity|cbn in Hl; lia].
     - destruct l as [|c t]; [split; reflexivity|]. cbn [length] in Hl.
       assert (Ht : (length t <= n)%nat) by lia. destruct (IH t Ht) as [IHn IHq]. split.
-      + destruct (is_quote c) eqn:Eq.
+      + destruct (cstart c t) eqn:Ecs; [rewrite sN_comment by exact Ecs; apply sN_comment; exact Ecs|].
+        destruct (is_quote c) eqn:Eq.
         * rewrite sN_quote by exact Eq. rewrite sN_quote by (rewrite is_quote_wr; exact Eq).
           rewrite wr_wr, cp_wr, IHq. reflexivity.
         * destruct (word_start c) eqn:Ew.
@@ -1000,7 +1062,9 @@ Section L007.
              assert (Hr : (length (trim_l wc t) <= n)%nat).
              { pose proof (take_trim_l wc t) as E. apply (f_equal (@length ch)) in E. rewrite app_length in E. lia. }
              destruct (IH _ Hr) as [IHr _]. rewrite IHr. rewrite Ec. reflexivity.
-          -- rewrite sN_other by assumption. rewrite sN_other by (rewrite ?is_quote_wr, ?word_start_wr; assumption).
+          -- rewrite sN_other by assumption.
+             assert (Ecw : cstart (wr c) (sN t) = false) by (rewrite cstart_wr; rewrite (cstart_next c (sN t) t (next_is_sN t)); exact Ecs).
+             rewrite sN_other by (rewrite ?is_quote_wr, ?word_start_wr; assumption).
              rewrite wr_wr, IHn. reflexivity.
       + intro k. rewrite sQ_cons. rewrite sQ_cons. rewrite wr_wr, cp_wr. destruct (cp c =? k); [rewrite IHn|rewrite IHq]; reflexivity.
   Qed.
@@ -1021,7 +1085,7 @@ Section L007.
   Qed.
 
   Lemma l007_scan_in : forall l q cur x, In x (scan q cur l) ->
-    (exists c, In c l /\ x = wr c) \/ up_img x \/ (exists w, cur = Some w /\ In x w).
+    (exists c, In c l /\ (x = wr c \/ x = c)) \/ up_img x \/ (exists w, cur = Some w /\ In x w).
   Proof.
     induction l as [|c t IH]; intros q cur x H.
     - cbn [l007_scan] in H. destruct cur as [w|]; [|destruct H]. apply conv_in in H. destruct H as [H|H].
@@ -1031,24 +1095,28 @@ Section L007.
                        up_img x \/ (exists w, cur = Some w /\ In x w)).
       { intro Hf. destruct cur as [w|]; [|destruct Hf]. apply conv_in in Hf. destruct Hf as [Hf|Hf]; [right|left; exact Hf].
         exists w. split; [reflexivity|]. apply in_rev. exact Hf. }
-      assert (Gtail : forall q', In x (scan q' None t) -> (exists c0, In c0 (c :: t) /\ x = wr c0) \/ up_img x \/ (exists w, cur = Some w /\ In x w)).
+      assert (Gtail : forall q', In x (scan q' None t) -> (exists c0, In c0 (c :: t) /\ (x = wr c0 \/ x = c0)) \/ up_img x \/ (exists w, cur = Some w /\ In x w)).
       { intros q' Hq. destruct (IH _ _ _ Hq) as [(d & Hd & E)|[Hb|(w & Hw & _)]]; [left; exists d; split; [right; exact Hd|exact E]|right; left; exact Hb|discriminate]. }
+      assert (Ghere : wr c = x -> (exists c0, In c0 (c :: t) /\ (x = wr c0 \/ x = c0)) \/ up_img x \/ (exists w, cur = Some w /\ In x w)).
+      { intro E. left. exists c. split; [left; reflexivity|left; symmetry; exact E]. }
       cbn [l007_scan] in H. destruct q as [k|].
-      + destruct H as [H|H]; [left; exists c; split; [left; reflexivity|symmetry; exact H]|].
+      + destruct H as [H|H]; [apply Ghere; exact H|].
         destruct (IH _ _ _ H) as [(d & Hd & E)|[Hb|Hw]]; [left; exists d; split; [right; exact Hd|exact E]|right; left; exact Hb|right; right; exact Hw].
-      + destruct (is_quote c).
-        * apply in_app_or in H. destruct H as [H|[H|H]]; [right; apply Gflush; exact H|left; exists c; split; [left; reflexivity|symmetry; exact H]|apply (Gtail _ H)].
+      + destruct (cstart c t).
+        { apply in_app_or in H. destruct H as [H|H]; [right; apply Gflush; exact H|left; exists x; split; [exact H|right; reflexivity]]. }
+        destruct (is_quote c).
+        * apply in_app_or in H. destruct H as [H|[H|H]]; [right; apply Gflush; exact H|apply Ghere; exact H|apply (Gtail _ H)].
         * destruct (word_start c || match cur with Some _ => true | None => false end && is_digit (cp c)).
           -- destruct (IH _ _ _ H) as [(d & Hd & E)|[Hb|(w & Hw & Hx)]]; [left; exists d; split; [right; exact Hd|exact E]|right; left; exact Hb|].
-             inversion Hw; subst. destruct Hx as [Hx|Hx]; [left; exists c; split; [left; reflexivity|symmetry; exact Hx]|].
+             inversion Hw; subst. destruct Hx as [Hx|Hx]; [apply Ghere; exact Hx|].
              destruct cur as [w0|]; [right; right; exists w0; split; [reflexivity|exact Hx]|destruct Hx].
-          -- apply in_app_or in H. destruct H as [H|[H|H]]; [right; apply Gflush; exact H|left; exists c; split; [left; reflexivity|symmetry; exact H]|apply (Gtail _ H)].
+          -- apply in_app_or in H. destruct H as [H|[H|H]]; [right; apply Gflush; exact H|apply Ghere; exact H|apply (Gtail _ H)].
   Qed.
 
   Lemma l007_line_keeps : forall l, no_nl l -> no_nl (l007_fix_line is_letter is_digit upper_ascii keywords l).
   Proof.
     intros l H x Hx. unfold l007_fix_line in Hx. apply l007_scan_in in Hx.
-    destruct Hx as [(c & Hc & E)|[(b & y & E & Hy)|(w & Hw & _)]]; [subst; apply is_nl_wr; apply H; exact Hc| |discriminate].
+    destruct Hx as [(c & Hc & [E|E])|[(b & y & E & Hy)|(w & Hw & _)]]; [subst; apply is_nl_wr; apply H; exact Hc|subst; apply H; exact Hc| |discriminate].
     subst. unfold is_nl, asc. cbn [cp raw valid].
     destruct (up_noquote _ _ Hy) as (_ & _ & N3). apply N.eqb_neq in N3. rewrite N3. reflexivity.
   Qed.
@@ -1202,7 +1270,8 @@ Section Conservation.
     assert (Ht : no_nl t) by (intros x Hx; apply H; right; exact Hx).
     rewrite (ink_cons c t). cbn [l010_scan]. destruct q as [k|].
     - rewrite ink_cons, ink_wr, IH by assumption. reflexivity.
-    - destruct (is_quote c); [rewrite ink_cons, ink_wr, IH by assumption; reflexivity|].
+    - destruct (cstart c t); [apply ink_cons|].
+      destruct (is_quote c); [rewrite ink_cons, ink_wr, IH by assumption; reflexivity|].
       destruct (is_sp c) eqn:Es.
       + assert (Hw : ink [c] = []) by (apply ink_ws; cbn; unfold Lint.wsc, is_blank; rewrite Es; rewrite orb_true_r; reflexivity).
         rewrite Hw. destruct ps; cbn [app]; [apply IH; exact Ht|].
@@ -1294,6 +1363,7 @@ Section CaseOnly.
       assert (Fl : map fold (match cur with Some w => conv_word upper_ascii keywords (rev w) | None => [] end)
                    = map fold (match cur with Some w => rev w | None => [] end)).
       { destruct cur; [apply fold_conv|reflexivity]. }
+      destruct (cstart c t); [rewrite !map_app; rewrite Fl; reflexivity|].
       destruct (is_quote c).
       + rewrite !map_app. rewrite Fl. cbn [map]. rewrite fold_wr, IHq. reflexivity.
       + destruct (word_start is_letter c || match cur with Some _ => true | None => false end && is_digit (cp c)).
@@ -1511,7 +1581,7 @@ Section View.
     destruct (IH Z Ht) as [IHq IHn]. split.
     - intro k. cbn [l010_scan]. rewrite !R_cons. rewrite (vt_wr c Hc). f_equal.
       destruct (cp c =? k); [exact (IHn false)|apply IHq].
-    - intro ps. cbn [l010_scan]. destruct (is_quote c).
+    - intro ps. cbn [l010_scan]. destruct (cstart c t); [reflexivity|]. destruct (is_quote c).
       + rewrite !R_cons. rewrite (vt_wr c Hc). rewrite IHq. reflexivity.
       + destruct (is_sp c) eqn:Es.
         * rewrite (R_cons c t). rewrite (sp_vt c Es). destruct ps; cbn [app sif].
@@ -1575,6 +1645,7 @@ Section View.
           assert (Fl : map vt (match cur with Some w => conv_word upper_ascii keywords (rev w) | None => [] end)
                        = map vt (match cur with Some w => rev w | None => [] end)).
           { destruct cur; [apply vt_conv|reflexivity]. }
+          destruct (cstart c t); [rewrite !map_app; rewrite Fl; reflexivity|].
           destruct (is_quote c).
           * rewrite !map_app. rewrite Fl. cbn [map]. rewrite (vt_wr c Hc), IHq. reflexivity.
           * destruct (word_start is_letter c || match cur with Some _ => true | None => false end && is_digit (cp c)).
@@ -1876,6 +1947,9 @@ Section Pipeline.
   Hypothesis up_idem : forall x u, upper_ascii x = Some u -> upper_ascii u = Some u.
   Hypothesis up_nows : forall x u, upper_ascii x = Some u -> is_space x = false /\ x <> 32 /\ x <> 9 /\ x <> 10.
   Hypothesis up_keynoquote : forall x u, upper_ascii x = Some u -> x <> 39 /\ x <> 34.
+  Hypothesis nl45 : is_letter 45 = false.
+  Hypothesis nd45 : is_digit 45 = false.
+  Hypothesis up_key45 : forall x u, upper_ascii x = Some u -> x <> 45.
   Hypothesis sp32 : is_space 32 = true.
   Hypothesis sp9 : is_space 9 = true.
   Hypothesis sp10 : is_space 10 = true.
@@ -1936,15 +2010,19 @@ Section Pipeline.
   Qed.
 
   (* ---------- L010 ---------- *)
-  Lemma scan10_last : forall l q ps c, lastc l = Some c -> is_sp c = false -> lastc (l010_scan q ps l) = Some (wr c).
+  Lemma scan10_last : forall l q ps c, lastc l = Some c -> is_sp c = false ->
+    exists c', lastc (l010_scan q ps l) = Some c' /\ (c' = wr c \/ c' = c).
   Proof.
     induction l as [|d t IH]; intros q ps c H Hs; [discriminate|]. destruct t as [|e t0] eqn:Et.
-    - inversion H; subst. cbn [l010_scan]. destruct q; [reflexivity|]. destruct (is_quote c); [reflexivity|]. rewrite Hs. reflexivity.
+    - inversion H; subst. exists (wr c). split; [|left; reflexivity]. cbn [l010_scan]. destruct q; [reflexivity|].
+      unfold cstart. cbn [next_is]. rewrite andb_false_r. destruct (is_quote c); [reflexivity|]. rewrite Hs. reflexivity.
     - rewrite lastc_cons in H by discriminate. rewrite <- Et in *. clear Et.
-      assert (G : forall q' ps' x, lastc (x ++ l010_scan q' ps' t) = Some (wr c)).
-      { intros q' ps' x. rewrite lastc_app_ne; [apply IH; assumption|].
-        intro En. specialize (IH q' ps' c H Hs). rewrite En in IH. discriminate. }
+      assert (G : forall q' ps' x, exists c', lastc (x ++ l010_scan q' ps' t) = Some c' /\ (c' = wr c \/ c' = c)).
+      { intros q' ps' x. destruct (IH q' ps' c H Hs) as (c' & E & D). exists c'. split; [|exact D].
+        rewrite lastc_app_ne; [exact E|]. intro En. rewrite En in E. discriminate. }
       cbn [l010_scan]. destruct q as [k|]; [apply (G _ _ [wr d])|].
+      destruct (cstart d t).
+      { exists c. split; [|right; reflexivity]. rewrite lastc_cons; [exact H|]. intro En. subst. discriminate. }
       destruct (is_quote d); [apply (G _ _ [wr d])|]. destruct (is_sp d).
       + destruct ps; [apply (G _ _ [])|apply (G _ _ [wr d])].
       + apply (G _ _ [wr d]).
@@ -1959,8 +2037,8 @@ Section Pipeline.
     - apply trim_l_nil_iff in E. rewrite (all_blank_S1_nil l E H). exact I.
     - unfold S1 in *. rewrite <- (take_trim_l is_blank l) in H. rewrite E in H. rewrite lastc_app_ne in H by discriminate.
       destruct (lastc (c :: r)) as [d|] eqn:Ed; [|apply lastc_none in Ed; discriminate].
-      assert (Hl : lastc (l010_scan None false (c :: r)) = Some (wr d)) by (apply scan10_last; [exact Ed|apply not_blank_not_sp; exact H]).
-      rewrite lastc_app_ne; [rewrite Hl; rewrite is_blank_wr; exact H|]. intro En. rewrite En in Hl. discriminate.
+      destruct (scan10_last (c :: r) None false d Ed (not_blank_not_sp d H)) as (c' & Hl & D).
+      rewrite lastc_app_ne; [rewrite Hl; destruct D as [D|D]; subst c'; [rewrite is_blank_wr|]; exact H|]. intro En. rewrite En in Hl. discriminate.
   Qed.
 
   Lemma f10_keeps_S2 : forall l, S2 l -> S2 (f10 l).
@@ -1972,10 +2050,10 @@ Section Pipeline.
       rewrite Hl in H.
       destruct (existsb is_tab (take_l is_blank (l010_scan None false l))) eqn:Et; [|reflexivity]. exfalso.
       apply existsb_exists in Et. destruct Et as (x & Hx & Tx). apply take_l_incl in Hx. apply l010_scan_in in Hx.
-      destruct Hx as (d & Hd & Ex). subst. rewrite is_tab_wr in Tx.
-      assert (existsb is_tab l = true) by (apply existsb_exists; exists d; split; assumption). congruence.
-    - pose proof (trim_l_head _ _ _ _ E) as Hc. destruct (l010_scan_head c r Hc) as (s & Hs). rewrite Hs.
-      rewrite take_l_app_all by apply take_l_all. rewrite take_l_stop by (rewrite is_blank_wr; exact Hc).
+      destruct Hx as (d & Hd & [Ex|Ex]); subst; [rewrite is_tab_wr in Tx|];
+        (assert (existsb is_tab l = true) by (apply existsb_exists; exists d; split; assumption); congruence).
+    - pose proof (trim_l_head _ _ _ _ E) as Hc. destruct (l010_scan_head c r Hc) as (c' & s & Hs & Hc'). rewrite Hs.
+      rewrite take_l_app_all by apply take_l_all. rewrite take_l_stop by exact Hc'.
       rewrite app_nil_r. exact H.
   Qed.
 
@@ -2022,12 +2100,7 @@ Section Pipeline.
   Qed.
 
   (* ---------- L007: the fixed line is related to the line character by character ---------- *)
-  Definition rel (c c' : ch) : Prop := c' = wr c \/ exists u, upper_ascii (cp c) = Some u /\ c' = asc u.
-
-  Lemma rel_wr : forall c c', rel c c' -> rel (wr c) c'.
-  Proof.
-    intros c c' [H|(u & H1 & H2)]; [left; rewrite wr_wr; exact H|right; exists u; rewrite cp_wr; split; assumption].
-  Qed.
+  Definition rel (c c' : ch) : Prop := c' = wr c \/ c' = c \/ exists u, upper_ascii (cp c) = Some u /\ c' = asc u.
 
   Lemma conv_rel : forall w, (forall c, In c w -> wr c = c) -> Forall2 rel w (conv_word upper_ascii keywords w).
   Proof.
@@ -2039,7 +2112,7 @@ Section Pipeline.
     revert u E. induction w as [|c w IH]; intros u E; cbn in E; [inversion E; constructor|].
     destruct (upper_ascii (cp c)) as [x|] eqn:Ex; [|discriminate].
     destruct (all_some (map (fun c0 => upper_ascii (cp c0)) w)) as [r|] eqn:Er; [|discriminate].
-    inversion E; subst. cbn [map]. constructor; [right; exists x; split; [exact Ex|reflexivity]|apply IH; reflexivity].
+    inversion E; subst. cbn [map]. constructor; [right; right; exists x; split; [exact Ex|reflexivity]|apply IH; reflexivity].
   Qed.
 
   Notation scan7 := (l007_scan is_letter is_digit upper_ascii keywords).
@@ -2060,7 +2133,7 @@ Section Pipeline.
   Proof.
     induction P as [|p P IHP]; intros c t out H; cbn [app] in *.
     - inversion H as [|? ? ? ? Hh Ht]; subst. constructor; [|exact Ht].
-      destruct Hh as [Hh|(u & H1 & H2)]; [left; rewrite wr_wr in Hh; exact Hh|right; exists u; rewrite cp_wr in H1; split; assumption].
+      destruct Hh as [Hh|[Hh|(u & H1 & H2)]]; [left; rewrite wr_wr in Hh; exact Hh|left; exact Hh|right; right; exists u; rewrite cp_wr in H1; split; assumption].
     - inversion H as [|? ? ? ? Hh Ht]; subst. constructor; [exact Hh|apply IHP; exact Ht].
   Qed.
 
@@ -2072,7 +2145,9 @@ Section Pipeline.
     - intro k. constructor.
     - intros cur H. cbn [l007_scan]. rewrite app_nil_r. apply flush_rel. exact H.
     - intro k. cbn [l007_scan]. constructor; [left; reflexivity|]. destruct (cp c =? k); [apply (IHn None I)|apply IHq].
-    - intros cur H. cbn [l007_scan]. destruct (is_quote c).
+    - intros cur H. cbn [l007_scan]. destruct (cstart c t).
+      { apply Forall2_app; [apply flush_rel; exact H|]. clear. induction (c :: t) as [|x r IHr]; constructor; [right; left; reflexivity|exact IHr]. }
+      destruct (is_quote c).
       + apply Forall2_app; [apply flush_rel; exact H|]. constructor; [left; reflexivity|apply IHq].
       + destruct (word_start is_letter c || match cur with Some _ => true | None => false end && is_digit (cp c)).
         * set (cur' := Some (wr c :: match cur with Some w => w | None => [] end)).
@@ -2088,30 +2163,30 @@ Section Pipeline.
 
   (* what the relation preserves *)
   Lemma rel_cp_cases : forall c c', rel c c' -> cp c' = cp c \/ exists u, upper_ascii (cp c) = Some u /\ cp c' = u.
-  Proof. intros c c' [H|(u & H1 & H2)]; subst; [left; apply cp_wr|right; exists u; split; [exact H1|reflexivity]]. Qed.
+  Proof. intros c c' [H|[H|(u & H1 & H2)]]; subst; [left; apply cp_wr|left; reflexivity|right; exists u; split; [exact H1|reflexivity]]. Qed.
 
   Lemma rel_blank : forall c c', rel c c' -> is_blank c' = is_blank c.
   Proof.
-    intros c c' [H|(u & H1 & H2)]; subst; [apply is_blank_wr|].
+    intros c c' [H|[H|(u & H1 & H2)]]; subst; [apply is_blank_wr|reflexivity|].
     destruct (up_nows _ _ H1) as (_ & A & B & _). destruct (up_nows _ _ (up_idem _ _ H1)) as (_ & A' & B' & _).
     unfold is_blank, is_sp, is_tab, asc. cbn [cp].
     apply N.eqb_neq in A. apply N.eqb_neq in B. apply N.eqb_neq in A'. apply N.eqb_neq in B'. rewrite A, B, A', B'. reflexivity.
   Qed.
   Lemma rel_tab : forall c c', rel c c' -> is_tab c' = is_tab c.
   Proof.
-    intros c c' [H|(u & H1 & H2)]; subst; [apply is_tab_wr|].
+    intros c c' [H|[H|(u & H1 & H2)]]; subst; [apply is_tab_wr|reflexivity|].
     destruct (up_nows _ _ H1) as (_ & _ & B & _). destruct (up_nows _ _ (up_idem _ _ H1)) as (_ & _ & B' & _).
     unfold is_tab, asc. cbn [cp]. apply N.eqb_neq in B. apply N.eqb_neq in B'. rewrite B, B'. reflexivity.
   Qed.
   Lemma rel_sp : forall c c', rel c c' -> is_sp c' = is_sp c.
   Proof.
-    intros c c' [H|(u & H1 & H2)]; subst; [apply is_sp_wr|].
+    intros c c' [H|[H|(u & H1 & H2)]]; subst; [apply is_sp_wr|reflexivity|].
     destruct (up_nows _ _ H1) as (_ & A & _). destruct (up_nows _ _ (up_idem _ _ H1)) as (_ & A' & _).
     unfold is_sp, asc. cbn [cp]. apply N.eqb_neq in A. apply N.eqb_neq in A'. rewrite A, A'. reflexivity.
   Qed.
   Lemma rel_quote : forall c c', rel c c' -> is_quote c' = is_quote c /\ (is_quote c = true -> cp c' = cp c).
   Proof.
-    intros c c' [H|(u & H1 & H2)]; subst; [split; [apply is_quote_wr|intros _; apply cp_wr]|].
+    intros c c' [H|[H|(u & H1 & H2)]]; subst; [split; [apply is_quote_wr|intros _; apply cp_wr]|split; [reflexivity|intros _; reflexivity]|].
     destruct (up_keynoquote _ _ H1) as (A & B). destruct (up_noquote _ _ H1) as (A' & B' & _).
     assert (Q : is_quote c = false) by (unfold is_quote; apply N.eqb_neq in A; apply N.eqb_neq in B; rewrite A, B; reflexivity).
     assert (Q' : is_quote (asc u) = false) by (unfold is_quote, asc; cbn [cp]; apply N.eqb_neq in A'; apply N.eqb_neq in B'; rewrite A', B'; reflexivity).
@@ -2119,18 +2194,32 @@ Section Pipeline.
   Qed.
   Lemma rel_eqk : forall c c' k, rel c c' -> (k = 39 \/ k = 34) -> (cp c' =? k) = (cp c =? k).
   Proof.
-    intros c c' k [H|(u & H1 & H2)] Hk; subst c'; [rewrite cp_wr; reflexivity|].
+    intros c c' k [H|[H|(u & H1 & H2)]] Hk; subst c'; [rewrite cp_wr; reflexivity|reflexivity|].
     destruct (up_keynoquote _ _ H1) as (A & B). destruct (up_noquote _ _ H1) as (A' & B' & _). cbn [asc cp].
     destruct Hk; subst k; [apply N.eqb_neq in A; apply N.eqb_neq in A'|apply N.eqb_neq in B; apply N.eqb_neq in B']; congruence.
   Qed.
   Lemma rel_wsc : forall c c', is_nl c = false -> rel c c' -> wsc c' = wsc c.
   Proof.
-    intros c c' Hn [H|(u & H1 & H2)]; subst; [apply wsc_wr; exact Hn|].
+    intros c c' Hn [H|[H|(u & H1 & H2)]]; subst; [apply wsc_wr; exact Hn|reflexivity|].
     rewrite (up_not_wsc is_space upper_ascii up_nows c u H1).
     apply (up_not_wsc is_space upper_ascii up_nows (asc u) u). cbn [asc cp]. exact (up_idem _ _ H1).
   Qed.
-  Lemma rel_wrfix : forall c c', rel c c' -> wr c' = c'.
-  Proof. intros c c' [H|(u & H1 & H2)]; subst; [apply wr_wr|reflexivity]. Qed.
+  Lemma rel_wrfix : forall c c', rel c c' -> wr c = c -> wr c' = c'.
+  Proof. intros c c' [H|[H|(u & H1 & H2)]] Hw; subst; [apply wr_wr|exact Hw|reflexivity]. Qed.
+
+  (* a minus sign stays a minus sign, and nothing else becomes one: comment starts are aligned *)
+  Lemma rel_45 : forall c c', rel c c' -> (cp c' =? 45) = (cp c =? 45).
+  Proof.
+    intros c c' [H|[H|(u & H1 & H2)]]; subst; [rewrite cp_wr; reflexivity|reflexivity|].
+    cbn [asc cp]. pose proof (up_key45 _ _ H1) as A. pose proof (up_letter _ _ H1) as L.
+    assert (B : u <> 45) by (intro E; subst; rewrite nl45 in L; discriminate).
+    apply N.eqb_neq in A. apply N.eqb_neq in B. rewrite A, B. reflexivity.
+  Qed.
+  Lemma rel_cstart : forall c c' t t', rel c c' -> Forall2 rel t t' -> cstart c' t' = cstart c t.
+  Proof.
+    intros c c' t t' H Ht. unfold cstart. rewrite (rel_45 c c' H). f_equal.
+    destruct Ht as [|d d' t t' Hd _]; [reflexivity|]. cbn [next_is]. apply rel_45. exact Hd.
+  Qed.
 
   Lemma Forall2_lastc : forall {A B} (Rr : A -> B -> Prop) a b, Forall2 Rr a b ->
     match lastc a, lastc b with Some x, Some y => Rr x y | None, None => True | _, _ => False end.
@@ -2175,6 +2264,7 @@ Section Pipeline.
   Lemma scan10_len : forall l q ps, (length (l010_scan q ps l) <= length l)%nat.
   Proof.
     induction l as [|c t IH]; intros q ps; [cbn; lia|]. cbn [l010_scan]. destruct q as [k|]; [cbn [length]; specialize (IH (if cp c =? k then None else Some k) ps); lia|].
+    destruct (cstart c t); [cbn [length]; lia|].
     destruct (is_quote c); [cbn [length]; specialize (IH (Some (cp c)) false); lia|]. destruct (is_sp c).
     - destruct ps; cbn [app length]; [specialize (IH None true); lia|specialize (IH None true); lia].
     - cbn [length]. specialize (IH None false). lia.
@@ -2189,16 +2279,17 @@ Section Pipeline.
   Proof.
     intros l l' H. induction H as [|c c' t t' Hc Ht IH]; intros q ps Hq E; [reflexivity|].
     cbn [l010_scan] in *. destruct q as [k|].
-    - injection E as E1 E2. rewrite (rel_eqk c c' k Hc Hq). rewrite (rel_wrfix c c' Hc). f_equal.
+    - injection E as E1 E2. rewrite (rel_eqk c c' k Hc Hq). rewrite (rel_wrfix c c' Hc E1). f_equal.
       apply IH; [destruct (cp c =? k); [exact I|exact Hq]|exact E2].
-    - destruct (rel_quote c c' Hc) as (Q1 & Q2). rewrite Q1. destruct (is_quote c) eqn:Eq.
-      + injection E as E1 E2. rewrite (rel_wrfix c c' Hc). f_equal. rewrite (Q2 eq_refl).
+    - rewrite (rel_cstart c c' t t' Hc Ht). destruct (cstart c t); [reflexivity|].
+      destruct (rel_quote c c' Hc) as (Q1 & Q2). rewrite Q1. destruct (is_quote c) eqn:Eq.
+      + injection E as E1 E2. rewrite (rel_wrfix c c' Hc E1). f_equal. rewrite (Q2 eq_refl).
         apply IH; [apply is_quote_k; exact Eq|exact E2].
       + rewrite (rel_sp c c' Hc). destruct (is_sp c).
         * destruct ps; cbn [app] in *.
           -- exfalso. pose proof (scan10_len t None true) as L. rewrite E in L. cbn [length] in L. lia.
-          -- injection E as E1 E2. rewrite (rel_wrfix c c' Hc). f_equal. apply IH; [exact I|exact E2].
-        * injection E as E1 E2. rewrite (rel_wrfix c c' Hc). f_equal. apply IH; [exact I|exact E2].
+          -- injection E as E1 E2. rewrite (rel_wrfix c c' Hc E1). f_equal. apply IH; [exact I|exact E2].
+        * injection E as E1 E2. rewrite (rel_wrfix c c' Hc E1). f_equal. apply IH; [exact I|exact E2].
   Qed.
 
   Lemma Forall2_nil_iff : forall {A B} (Rr : A -> B -> Prop) a b, Forall2 Rr a b -> (a = [] <-> b = []).
@@ -2290,7 +2381,7 @@ Section Pipeline.
       apply f7_keeps_S10. rewrite Forall_forall in C10. apply C10. exact Hl1. }
     assert (D7 : Forall (fun l => f7 l = l) (split_nl u)).
     { rewrite L5. apply Forall_forall. intros l Hl. apply in_map_iff in Hl. destruct Hl as (l1 & E1 & _). subst.
-      apply (l007_line_idem is_letter is_digit upper_ascii keywords up_letter up_noquote up_idem). }
+      apply (l007_line_idem is_letter is_digit upper_ascii keywords up_letter up_noquote up_idem nl45 nd45). }
     (* the output is a fixed point of every stage *)
     assert (E1 : F1 u = u) by (apply (per_line_fixed f1 u D1)).
     rewrite E1.
@@ -2311,6 +2402,8 @@ Section L007Clears.
   Hypothesis up_letter : forall x u, upper_ascii x = Some u -> is_letter u = true.
   Hypothesis up_noquote : forall x u, upper_ascii x = Some u -> u <> 39 /\ u <> 34 /\ u <> 10.
   Hypothesis up_idem : forall x u, upper_ascii x = Some u -> upper_ascii u = Some u.
+  Hypothesis nl45 : is_letter 45 = false.
+  Hypothesis nd45 : is_digit 45 = false.
 
   Notation word_start := (word_start is_letter).
   Notation word_char := (word_char is_letter is_digit).
@@ -2328,9 +2421,11 @@ Section L007Clears.
   Definition allw (P : list ch -> Prop) (ws : list (nat * list ch)) : Prop := forall p, In p ws -> P (snd p).
 
   Lemma wN_quote : forall i c t, is_quote c = true -> words None i None (c :: t) = words (Some (cp c)) (i + width c) None t.
+  Proof. intros i c t H. cbn [l007_words]. rewrite (cstart_quote c t H). rewrite H. reflexivity. Qed.
+  Lemma wN_other : forall i c t, cstart c t = false -> is_quote c = false -> word_start c = false -> words None i None (c :: t) = words None (i + width c) None t.
+  Proof. intros i c t H0 H1 H2. cbn [l007_words]. rewrite H0, H1, H2. reflexivity. Qed.
+  Lemma wN_comment : forall i c t, cstart c t = true -> words None i None (c :: t) = [].
   Proof. intros i c t H. cbn [l007_words]. rewrite H. reflexivity. Qed.
-  Lemma wN_other : forall i c t, is_quote c = false -> word_start c = false -> words None i None (c :: t) = words None (i + width c) None t.
-  Proof. intros i c t H1 H2. cbn [l007_words]. rewrite H1, H2. reflexivity. Qed.
   Lemma wQ_cons : forall k i c t, words (Some k) i None (c :: t) = words (if cp c =? k then None else Some k) (i + width c) None t.
   Proof. reflexivity. Qed.
 
@@ -2340,7 +2435,7 @@ Section L007Clears.
     induction t as [|c t IH]; intros i s w; [exists i; reflexivity|].
     cbn [take_l trim_l]. destruct (wc c) eqn:E; [|exists i; reflexivity].
     unfold wc in E. apply andb_prop in E. destruct E as [E1 E2]. apply negb_true_iff in E1.
-    cbn [l007_words]. rewrite E1.
+    cbn [l007_words]. rewrite (wch_not45 is_letter is_digit nl45 nd45 c t E2). rewrite E1.
     assert (C : word_start c || true && is_digit (cp c) = true) by exact E2. rewrite C.
     destruct (IH (i + width c)%nat s (wr c :: w)) as (i' & E). exists i'. rewrite E. cbn [map rev]. rewrite <- app_assoc. reflexivity.
   Qed.
@@ -2348,7 +2443,7 @@ Section L007Clears.
   Lemma boundaryW : forall i s w r, stops r -> words None i (Some (s, w)) r = (S s, rev w) :: words None i None r.
   Proof.
     intros i s w r [H|(d & r' & H & Hd)]; subst; [reflexivity|].
-    cbn [l007_words]. destruct (is_quote d) eqn:Eq; [reflexivity|].
+    cbn [l007_words]. destruct (cstart d r'); [reflexivity|]. destruct (is_quote d) eqn:Eq; [reflexivity|].
     unfold wc in Hd. rewrite Eq in Hd. cbn [negb andb] in Hd.
     unfold Lint.word_char in Hd. apply orb_false_elim in Hd. destruct Hd as [H1 H2].
     rewrite H1, H2. cbn [orb andb]. reflexivity.
@@ -2357,7 +2452,7 @@ Section L007Clears.
   Lemma wN_word : forall i c t, is_quote c = false -> word_start c = true -> exists i',
     words None i None (c :: t) = (S i, map wr (c :: take_l wc t)) :: words None i' None (trim_l wc t).
   Proof.
-    intros i c t H1 H2. cbn [l007_words]. rewrite H1, H2. cbn [orb].
+    intros i c t H1 H2. cbn [l007_words]. rewrite (ws_not45 is_letter nl45 c t H2). rewrite H1, H2. cbn [orb].
     destruct (absorbW t (i + width c)%nat i [wr c]) as (i' & E). exists i'. rewrite E.
     rewrite boundaryW by apply trim_l_stops. rewrite rev_app_distr. rewrite rev_involutive. reflexivity.
   Qed.
@@ -2406,11 +2501,13 @@ Section L007Clears.
     - destruct l; [split; intros; apply clean_nil|cbn in Hl; lia].
     - destruct l as [|c t]; [split; intros; apply clean_nil|]. cbn [length] in Hl.
       assert (Ht : (length t <= n)%nat) by lia. destruct (IH t Ht) as [IHn IHq]. split.
-      + intro i. destruct (is_quote c) eqn:Eq.
+      + intro i. destruct (cstart c t) eqn:Ecs.
+        { rewrite (sN_comment is_letter is_digit upper_ascii keywords) by exact Ecs. rewrite wN_comment by exact Ecs. apply clean_nil. }
+        destruct (is_quote c) eqn:Eq.
         * rewrite (sN_quote is_letter is_digit upper_ascii keywords) by exact Eq. rewrite wN_quote by (rewrite is_quote_wr; exact Eq).
           rewrite cp_wr. apply IHq.
         * destruct (word_start c) eqn:Ew.
-          -- rewrite (sN_word is_letter is_digit upper_ascii keywords) by assumption.
+          -- rewrite (sN_word is_letter is_digit upper_ascii keywords nl45 nd45) by assumption.
              pose proof (take_l_all wc t) as Hv.
              destruct (conv_shape is_letter is_digit upper_ascii keywords up_letter up_noquote c (take_l wc t) Eq Ew Hv) as (c' & v' & Ec & Q' & W' & V').
              rewrite Ec. change ((c' :: v') ++ sN (trim_l wc t)) with (c' :: v' ++ sN (trim_l wc t)).
@@ -2422,6 +2519,8 @@ Section L007Clears.
                 { pose proof (take_trim_l wc t) as E0. apply (f_equal (@length ch)) in E0. rewrite app_length in E0. lia. }
                 destruct (IH _ Hr) as [IHr _]. apply IHr.
           -- rewrite (sN_other is_letter is_digit upper_ascii keywords) by assumption.
+             assert (Ecw : cstart (wr c) (sN t) = false).
+             { rewrite cstart_wr. rewrite (cstart_next c (sN t) t (next_is_sN is_letter is_digit upper_ascii keywords up_letter up_noquote nl45 nd45 t)). exact Ecs. }
              rewrite wN_other by (rewrite ?is_quote_wr, ?(word_start_wr is_letter); assumption). apply IHn.
       + intros k i. rewrite (sQ_cons is_letter is_digit upper_ascii keywords). rewrite wQ_cons. rewrite cp_wr.
         destruct (cp c =? k); [apply IHn|apply IHq].
@@ -2778,7 +2877,7 @@ Proof.
   intros t H. change (l010_fix t) with (per_line l010_fix_line t). apply ascl_per_line; [|exact H]. intros l Hl c Hc.
   unfold l010_fix_line in Hc.
   assert (G : forall m, (forall y, In y m -> In y l) -> In c (l010_scan None false m) -> ascc c).
-  { intros m Hm Hin. apply l010_scan_in in Hin. destruct Hin as (d & Hd & E). subst. rewrite ascc_wr; apply Hl; apply Hm; exact Hd. }
+  { intros m Hm Hin. apply l010_scan_in in Hin. destruct Hin as (d & Hd & [E|E]); subst; [rewrite ascc_wr|]; apply Hl; apply Hm; exact Hd. }
   destruct (trim_l is_blank l) as [|d r] eqn:E.
   - eapply G; [|exact Hc]. auto.
   - apply in_app_or in Hc. destruct Hc as [Hc|Hc]; [apply Hl; eapply take_l_incl; exact Hc|].
@@ -2796,8 +2895,9 @@ Section A7.
   Proof.
     intros t H. unfold l007_fix. apply (ascl_per_line (l007_fix_line is_letter is_digit upper_ascii keywords)); [|exact H].
     intros l Hl c Hc. unfold l007_fix_line in Hc. apply (l007_scan_in is_letter is_digit upper_ascii keywords) in Hc.
-    destruct Hc as [(d & Hd & E)|[(b & y & E & Hy)|(w & Hw & _)]]; [|subst; exists b; split; [eapply up_ascii; exact Hy|reflexivity]|discriminate].
-    subst. rewrite ascc_wr; apply Hl; exact Hd.
+    destruct Hc as [(d & Hd & [E|E])|[(b & y & E & Hy)|(w & Hw & _)]]; [| |subst; exists b; split; [eapply up_ascii; exact Hy|reflexivity]|discriminate].
+    - subst. rewrite ascc_wr; apply Hl; exact Hd.
+    - subst. apply Hl. exact Hd.
   Qed.
 
   Lemma ascl_cli : forall t, ascl t -> ascl (cli_fix is_letter is_digit is_space upper_ascii keywords t).
@@ -2841,19 +2941,30 @@ Fixpoint dbl (q : option N) (ps : bool) (l : list ch) : bool :=
   | [] => false
   | c :: t =>
       match q with
-      | None => if is_quote c then dbl (Some (cp c)) false t
+      | None => if cstart c t then false
+                else if is_quote c then dbl (Some (cp c)) false t
                 else if is_sp c then ps || dbl None true t else dbl None false t
       | Some k => dbl (if cp c =? k then None else Some k) ps t
       end
   end.
 
+Lemma scan10_len10 : forall l q ps, (length (l010_scan q ps l) <= length l)%nat.
+Proof.
+  induction l as [|c t IH]; intros q ps; [cbn; lia|]. cbn [l010_scan]. destruct q as [k|]; [cbn [length]; specialize (IH (if cp c =? k then None else Some k) ps); lia|].
+  destruct (cstart c t); [cbn [length]; lia|].
+  destruct (is_quote c); [cbn [length]; specialize (IH (Some (cp c)) false); lia|]. destruct (is_sp c).
+  - destruct ps; cbn [app length]; [specialize (IH None true); lia|specialize (IH None true); lia].
+  - cbn [length]. specialize (IH None false). lia.
+Qed.
+
 Lemma stable_nodbl : forall l q ps, l010_scan q ps l = l -> dbl q ps l = false.
 Proof.
   induction l as [|c t IH]; intros q ps E; [reflexivity|]. cbn [l010_scan dbl] in *. destruct q as [k|].
   - injection E as _ E2. apply IH. exact E2.
-  - destruct (is_quote c); [injection E as _ E2; apply IH; exact E2|]. destruct (is_sp c).
+  - destruct (cstart c t); [reflexivity|].
+    destruct (is_quote c); [injection E as _ E2; apply IH; exact E2|]. destruct (is_sp c).
     + destruct ps; cbn [app] in E.
-      * exfalso. pose proof (scan10_len t None true) as L. rewrite E in L. cbn [length] in L. lia.
+      * exfalso. pose proof (scan10_len10 t None true) as L. rewrite E in L. cbn [length] in L. lia.
       * injection E as _ E2. cbn [orb]. apply IH. exact E2.
     + injection E as _ E2. apply IH. exact E2.
 Qed.
@@ -2926,7 +3037,9 @@ Proof.
       destruct (cp c =? k).
       * apply (IH None _ _ [] Hd (fun _ => eq_refl) (fun Hx => False_ind _ (Hx eq_refl)) p Hp).
       * apply (IH (Some k) _ _ [] Hd (fun _ => eq_refl) (fun Hx => False_ind _ (Hx eq_refl)) p Hp).
-    + destruct (is_quote c) eqn:Eq.
+    + destruct (cstart c t) eqn:Ecs.
+      { destruct cur as [|d cur]; [destruct Hp|]. destruct Hp as [Hp|[]]. subst. apply Hc. discriminate. }
+      destruct (is_quote c) eqn:Eq.
       * apply in_app_or in Hp. destruct Hp as [Hp|Hp].
         -- destruct cur as [|d cur]; [destruct Hp|]. destruct Hp as [Hp|[]]. subst. apply Hc. discriminate.
         -- apply (IH (Some (cp c)) _ _ [] Hd (fun _ => eq_refl) (fun Hx => False_ind _ (Hx eq_refl)) p Hp).
@@ -2953,7 +3066,7 @@ Lemma parts_lead : forall a x i start cur, forallb is_blank a = true ->
 Proof.
   induction a as [|c a IH]; intros x i start cur H.
   - cbn [app blen fold_right map rev]. rewrite Nat.add_0_r. destruct cur; reflexivity.
-  - cbn in H. apply andb_prop in H. destruct H as [H1 H2]. cbn [app l010_parts]. rewrite (blank_noquote c H1).
+  - cbn in H. apply andb_prop in H. destruct H as [H1 H2]. cbn [app l010_parts]. rewrite (cstart_blank c _ H1). rewrite (blank_noquote c H1).
     rewrite IH by exact H2. rewrite blen_cons. cbn [map rev]. rewrite <- app_assoc. cbn [app].
     replace (i + width c + blen a)%nat with (i + (width c + blen a))%nat by lia.
     destruct cur; destruct a; reflexivity.
@@ -3026,15 +3139,16 @@ Proof.
   intros c Hc. apply take_l_incl in Hc.
   assert (W0 : forall d, In d l0 -> wfc d) by (intros d Hd; apply Hw; eapply split_incl; eassumption).
   unfold l010_fix_line in Hc. destruct (trim_l is_blank l0) as [|c0 r0] eqn:E0.
-  - apply l010_scan_in in Hc. destruct Hc as (d & Hd & Ed). subst.
+  - apply l010_scan_in in Hc. destruct Hc as (d & Hd & [Ed|Ed]); subst; [|apply W0; exact Hd].
     (* only blank characters matter: a well-formed blank is valid, so wr keeps it *)
     specialize (W0 d Hd). apply trim_l_nil_iff in E0. rewrite forallb_forall in E0. specialize (E0 d Hd).
     destruct (wf_blank d W0 E0) as (Wd & _). rewrite Wd. exact W0.
   - apply in_app_or in Hc. destruct Hc as [Hc|Hc]; [apply W0; eapply take_l_incl; exact Hc|].
     (* characters of the scanned rest that belong to the leading blank run: there are none beyond lead, but wfc is only
        needed for members of take_l; members coming from the scan are rewritten input characters *)
-    apply l010_scan_in in Hc. destruct Hc as (d & Hd & Ed). subst.
+    apply l010_scan_in in Hc. destruct Hc as (d & Hd & Ed).
     assert (Wd : wfc d) by (apply W0; eapply trim_l_incl; rewrite E0; exact Hd).
+    destruct Ed as [Ed|Ed]; subst; [|exact Wd].
     destruct (valid d) eqn:V; [unfold wr; rewrite V; exact Wd|].
     unfold wr. rewrite V. destruct Wd as (W1 & W2 & W3 & W4).
     assert (Hge : 128 <= cp d) by (destruct (N.lt_ge_cases (cp d) 128) as [Hlt|Hge]; [rewrite (W4 Hlt) in V; discriminate|exact Hge]).
